@@ -899,8 +899,10 @@ fn build_locked(vm: &mut Vm, c: &str, variant: &str, amt: u64) -> Uni {
         lockers.dedup();
         for r in lockers.iter() {
             for (k, ep, mult) in [("lk360", 360u64, 1u32), ("lk720", 720, 3), ("lk1440", 1440, 4)] {
+                let before = bd.vm.nfts(&bd.ad(r), LOCKED);
                 let _ = bd.ok(r, "energy", "lockTokens", vec![a_u64(ep)], &[esdt(BASE, 0, &(&unit * mult))]);
-                let n = last_nonce(&bd, r, LOCKED);
+                let after = bd.vm.nfts(&bd.ad(r), LOCKED);
+                let n = after.iter().find(|x| !before.contains(x)).map(|x| x.0).expect("no locked token received");
                 bd.n.insert(k.to_string(), n);
             }
             let _ = bd.ok(r, "fees", "claimRewards", vec![], &[]);
